@@ -11,6 +11,8 @@ CONSTANTS
   Pads = {0}
   Padfs = {0}
   Showdups = {FALSE}
+  FaultOps = {}
+  FaultKs = {}
 VIEW view
-INVARIANTS Inv_Covered Inv_KeepsCovered Inv_NoTwin Inv_StaleGone Inv_Foreign Inv_Idempotent Inv_Converges Inv_Accounting Inv_FoldAgrees
+INVARIANTS Inv_ErrReported Inv_Covered Inv_KeepsCovered Inv_NoTwin Inv_StaleGone Inv_Foreign Inv_Idempotent Inv_Converges Inv_Accounting Inv_FoldAgrees
 CHECK_DEADLOCK FALSE
